@@ -13,12 +13,14 @@ mod evt; mod stk;
 mod ext;
 mod gaps;
 mod json;
+mod lww;
 mod mapread;
 mod model;
 mod proto;
 mod quote;
 mod scale;
 mod search;
+mod seqread;
 mod sut;
 mod updlog;
 
@@ -138,6 +140,11 @@ fn cmd_search(args: &[String]) -> i32 {
         let deadline = max_seconds.map(|t| Instant::now() + Duration::from_secs_f64(t.max(0.0)));
         return mapread::cmd_search(&target, universe, jobs, deadline);
     }
+    // agreement of the read paths of arrays / texts / XML trees (seqread.rs: seqread | seq_array | seq_text | seq_xml)
+    if seqread::is_target(&target) {
+        let deadline = max_seconds.map(|t| Instant::now() + Duration::from_secs_f64(t.max(0.0)));
+        return seqread::cmd_search(&target, universe, jobs, deadline);
+    }
     // quotations and map links (quote.rs: quote | quote_seq | quote_map | quote_obs)
     if quote::is_target(&target) {
         let deadline = max_seconds.map(|t| Instant::now() + Duration::from_secs_f64(t.max(0.0)));
@@ -149,6 +156,11 @@ fn cmd_search(args: &[String]) -> i32 {
         let search = if evt::is_target(&target) { evt::cmd_search } else { stk::cmd_search };
         return search(&target, universe, jobs, deadline);
     }
+    // last-writer-wins per map key / XML attribute (lww.rs: lww | lww_map | lww_attr | lww_nested)
+    if lww::is_target(&target) {
+        let deadline = max_seconds.map(|t| Instant::now() + Duration::from_secs_f64(t.max(0.0)));
+        return lww::cmd_search(&target, universe, jobs, deadline);
+    }
     // targets outside the interval-set code (see ext.rs)
     if let Some(parts) = ext::targets_for(&target) {
         let _ = dec::OPTS.set(dec_opts);
@@ -159,7 +171,7 @@ fn cmd_search(args: &[String]) -> i32 {
         die(&format!("--universe must be in 1..={}", MAX_UNIVERSE));
     }
     let groups = search::groups_for(&target)
-        .unwrap_or_else(|| die(&format!("unknown target {:?}; targets: {} | {} | {} | {} | {} | {} | {} | {}", target, search::TARGETS, ext::TARGETS, evt::TARGETS, stk::TARGETS, mapread::TARGETS, quote::TARGETS, updlog::TARGETS, converge::TARGETS)));
+        .unwrap_or_else(|| die(&format!("unknown target {:?}; targets: {} | {} | {} | {} | {} | {} | {} | {} | {} | {}", target, seqread::TARGETS, lww::TARGETS,search::TARGETS, ext::TARGETS, evt::TARGETS, stk::TARGETS, mapread::TARGETS, quote::TARGETS, updlog::TARGETS, converge::TARGETS)));
     let mut s = Search {
         n: universe,
         seed,
@@ -245,12 +257,18 @@ fn cmd_replay(args: &[String]) -> i32 {
     if quote::owns(&j) {
         return quote::cmd_replay(&j).unwrap_or_else(|e| die(&format!("replay: {}", e)));
     }
+    if seqread::owns(&j) {
+        return seqread::cmd_replay(&j).unwrap_or_else(|e| die(&format!("replay: {}", e)));
+    }
     if mapread::owns(&j) {
         return mapread::cmd_replay(&j).unwrap_or_else(|e| die(&format!("replay: {}", e)));
     }
     if evt::owns(&j) || stk::owns(&j) {
         let replay =if evt::owns(&j) { evt::cmd_replay } else { stk::cmd_replay };
         return replay(&j).unwrap_or_else(|e| die(&format!("replay: {}", e)));
+    }
+    if lww::owns(&j) {
+        return lww::cmd_replay(&j).unwrap_or_else(|e| die(&format!("replay: {}", e)));
     }
     if ext::owns(&j) {
         return ext::cmd_replay(&j).unwrap_or_else(|e| die(&format!("replay: {}", e)));
